@@ -762,6 +762,15 @@ class Interp:
         if t.startswith('b"'):
             s = parse_bytes_lit(t[1:])
             return Ref(Cell(VecV([Int(b, "u8") for b in s], "array"), "bytes-const"))
+        mi = re.fullmatch(r"((core|std)::)?(u8|i8|u16|i16|u32|i32|u64|i64|u128|i128|usize|isize)::(MAX|MIN|BITS)", t)
+        if mi:
+            ity, what = mi.group(3), mi.group(4)
+            w = INT_W[ity]
+            if what == "BITS":
+                return Int(w, "u32")
+            if is_signed(ity):
+                return Int(((1 << (w - 1)) - 1) if what == "MAX" else (1 << (w - 1)), ity)
+            return Int(((1 << w) - 1) if what == "MAX" else 0, ity)
         m = re.fullmatch(r"([\w:<>, ]+?)::<.*>::(\w+)", t) or re.fullmatch(r"([\w:]+)::(\w+)", t)
         # named constant of the crate
         cv = self.lookup_const(fr, t)
